@@ -119,14 +119,119 @@ def _clean_tmp():
         pass
 
 
+def _kill_child():
+    pid = _WORK.get("child")
+    if pid:
+        try:
+            os.kill(pid, signal.SIGKILL)
+            os.waitpid(pid, 0)
+        except OSError:
+            pass
+        _WORK["child"] = None
+
+
+def prewarm():
+    """Import (never execute) the generator so that forked case processes do not pay for it, and start the
+    runtime-only interpreter so that they share it."""
+    if _WORK.get("warm"):
+        return
+    _WORK["warm"] = True
+    import importlib
+    import pkgutil
+
+    try:
+        import pyopenapi_gen
+
+        for m in pkgutil.walk_packages(pyopenapi_gen.__path__, "pyopenapi_gen."):
+            if ".core_package_template" in m.name or m.name.endswith("__main__"):
+                continue
+            try:
+                importlib.import_module(m.name)
+            except Exception:
+                pass
+    except Exception:
+        pass
+    # third-party lazy caches (never the generator's own state): validator meta-schemas, black's compiled modules
+    try:
+        import openapi_spec_validator
+
+        for v in ("3.0.3", "3.1.0"):
+            try:
+                openapi_spec_validator.validate({"openapi": v, "info": {"title": "t", "version": "1"}, "paths": {}})
+            except Exception:
+                pass
+    except Exception:
+        pass
+    try:
+        import black
+
+        black.format_str("x = {'a': 1}\n", mode=black.Mode(line_length=120))
+    except Exception:
+        pass
+    try:
+        from . import sandbox
+
+        sandbox._start_zygote()
+    except Exception:
+        pass
+    import gc
+
+    gc.collect()
+    gc.freeze()  # keep the warmed heap out of the children's collections (fewer copy-on-write faults)
+
+
+def _run_isolated(mod, case):
+    """ISOLATE = True: the case runs in a forked child of this process, and this process itself never runs the
+    generator - so every case (and every re-execution of it) starts from the same process state: generator modules
+    imported, nothing executed.  Process-global generator state therefore only carries history WITHIN a case,
+    where the case enumerates it on purpose."""
+    import pickle
+
+    prewarm()
+    r, w = os.pipe()
+    sys.stdout.flush()
+    sys.stderr.flush()
+    pid = os.fork()
+    if pid == 0:
+        code = 0
+        try:
+            os.close(r)
+            try:
+                res = mod.run_case(case)
+            except HarnessError as e:
+                res = {"findings": [], "harness_error": f"{e}\n{traceback.format_exc()}"}
+            except CaseTimeout:
+                res = {"findings": [{"sig": f"{mod.PID}|watchdog|case did not terminate", "msg": "timeout"}], "outcome": "timeout"}
+            except BaseException as e:
+                res = {"findings": [], "harness_error": f"{type(e).__name__}: {e}\n{traceback.format_exc()}"}
+            with os.fdopen(w, "wb") as f:
+                pickle.dump(res, f)
+        except BaseException:
+            code = 3
+        finally:
+            os._exit(code)
+    os.close(w)
+    _WORK["child"] = pid
+    try:
+        with os.fdopen(r, "rb") as f:
+            data = f.read()
+        os.waitpid(pid, 0)
+    finally:
+        _WORK["child"] = None
+    if not data:
+        raise HarnessError("isolated case process produced no result")
+    return pickle.loads(data)
+
+
 def run_one(mod, case):
     """Execute one case with watchdog; returns CaseResult. Harness exceptions are carried out as
     result['harness_error'] so that the parent can stop with a diagnosis."""
     t0 = time.time()
     signal.alarm(getattr(mod, "CASE_TIMEOUT_S", CASE_TIMEOUT_S))
     try:
-        res = mod.run_case(case)
+        res = _run_isolated(mod, case) if getattr(mod, "ISOLATE", False) else mod.run_case(case)
     except CaseTimeout:
+        _kill_child()
         res = {"findings": [{"sig": f"{mod.PID}|watchdog|case did not terminate", "msg": "timeout"}],
                "outcome": "timeout"}
     except HarnessError as e:
